@@ -17,8 +17,46 @@ func init() {
 		Nontrivial: func(r *RunRes) bool { return r.NOps >= 2 && r.Preempt > 0 }})
 }
 
+// nthPerm returns the k-th permutation (factorial number system) of 0..n-1.
+func nthPerm(n, k int) []int {
+	elems := make([]int, n)
+	for i := range elems {
+		elems[i] = i
+	}
+	fact := 1
+	for i := 2; i <= n; i++ {
+		fact *= i
+	}
+	k %= fact
+	var out []int
+	for i := n; i >= 1; i-- {
+		fact /= i
+		j := k / fact
+		k %= fact
+		out = append(out, elems[j])
+		elems = append(elems[:j], elems[j+1:]...)
+	}
+	return out
+}
+
 func genC02(r *simrt.RNG, tier string, variant int) Plan {
 	p := Plan{Family: "healthy"}
+	if variant >= 0 {
+		// thorough sweep: N = 2..5 concurrent calls on one client whose server
+		// handlers finish in the (variant/4)-th permutation of their start order
+		// (every permutation is visited: 2!+3!+4!+5! = 152 variants), each under
+		// this run's own schedule, latency and segmentation
+		n := 2 + variant%4
+		p.Family = "permutation"
+		p.Params = map[string]int64{"perm": int64(variant / 4)}
+		p.Servers = []ServerPlan{{Addr: "srv0:1", PingNs: -1}}
+		p.Clients = []ClientPlan{{Name: "A", Kind: Pick(r, []string{"ws", "ws", "http"}), Server: 0, PingNs: -1}}
+		for i := 0; i < n; i++ {
+			op := Op{Kind: "call", Client: 0, Tok: i + 1, Size: Pick(r, []int{0, 100, 5000}), Err: r.Bool(0.2)}
+			p.Ops = append(p.Ops, op)
+		}
+		return p
+	}
 	p.Servers = []ServerPlan{{Addr: "srv0:1", PingNs: Pick(r, []int64{0, -1, int64(50e6), int64(1e9)})}}
 	nc := 1 + r.Intn(3)
 	tok := 1
@@ -68,8 +106,49 @@ func runC02(e *Env, p *Plan) {
 		e.Violate("setup", "building the world failed on a healthy network: %v", err)
 		return
 	}
-	for _, op := range p.Ops {
-		w.Start(op, nil)
+	if p.Family == "permutation" {
+		n := len(p.Ops)
+		gates := make([]chan struct{}, n)
+		for i, op := range p.Ops {
+			gates[i] = make(chan struct{})
+			t := w.Register(op)
+			t.mu.Lock()
+			t.Gate = gates[i]
+			t.mu.Unlock()
+			w.Start(op, nil)
+			t.mu.Lock()
+			t.Gate = gates[i]
+			t.mu.Unlock()
+		}
+		// wait until every handler is running, then let them finish in the chosen order
+		if !e.SettleUntil(func() bool {
+			for _, op := range p.Ops {
+				t := e.Tok(op.Tok)
+				t.mu.Lock()
+				started := len(t.HStart) > 0
+				t.mu.Unlock()
+				if !started {
+					return false
+				}
+			}
+			return true
+		}, 100*time.Millisecond, 10*time.Second) {
+			return
+		}
+		for _, i := range nthPerm(n, int(p.Param("perm", 0))) {
+			if i < len(gates) {
+				close(gates[i])
+				simrt.Rec("release", itoa(p.Ops[i].Tok), "", 0)
+				if !e.S.Settle(time.Millisecond) {
+					return
+				}
+			}
+		}
+		e.Probe("completion-order-permutations")
+	} else {
+		for _, op := range p.Ops {
+			w.Start(op, nil)
+		}
 	}
 	if !e.S.Settle(3 * time.Second) {
 		return
